@@ -879,7 +879,7 @@ pub fn c13(tier: Tier) -> i32 {
 pub fn c14(tier: Tier) -> i32 {
     let run = Run::new("C14", tier);
     assert!(vclock::self_test());
-    let depth = if tier.thorough() { 5 } else { 4 };
+    let depth = if tier.thorough() { 6 } else { 5 };
     let mut outs = vec![];
     let rx = (35.0, -80.0);
     let o = explore(&run, &format!("C14/attrs/d{depth}"), tracker(alphabet_c14(rx), rx, 500.0, 1_000_000_000, 14), depth);
